@@ -374,6 +374,9 @@ func buildWorld(world string, race bool) *built {
 	bin := filepath.Join(binDir, "world.test")
 	b := &built{bin: bin, sites: meta.Sites, files: meta.Instrumented, hash: sum, scratch: scratch}
 	if _, err = os.Stat(bin); err == nil {
+		// mark it as recently used: the cache is pruned by age
+		now := time.Now()
+		os.Chtimes(binDir, now, now)
 		fmt.Printf("verif: world %s (race=%v) binary cached %s (instrumentation %.1fs)\n", world, race, sum, time.Since(t0).Seconds())
 		return b
 	}
@@ -393,7 +396,7 @@ func buildWorld(world string, race bool) *built {
 		infra("building world %s failed: %v\n%s", world, err, out)
 	}
 	os.Rename(bin+".tmp", bin)
-	pruneCache(filepath.Join(cacheRoot, "bin"), 10)
+	pruneCache(filepath.Join(cacheRoot, "bin"), 24)
 	fmt.Printf("verif: world %s (race=%v) built %s in %.1fs (%d files instrumented, %d sites)\n", world, race, sum, time.Since(t0).Seconds(), len(meta.Instrumented), meta.Sites)
 	return b
 }
